@@ -7,6 +7,7 @@ import TvFs.Model.Patterns
 import TvFs.Proofs.Crash
 import TvFs.Proofs.Invents
 import TvFs.Proofs.Durable4
+import TvFs.Proofs.Repairs
 
 namespace TV.C07
 open TV.Fs
@@ -182,5 +183,53 @@ theorem never_invents (cfg : Cfg) (h : List (Op × Ora)) (p : Path) :
   exact content_ok hg p
 
 example : content (runSt {} St.init (q [.writeFile a [7, 8]])).fs a = [7, 8] := by decide
+
+/-! ### repairs (areas/fs/repairs/*.patch): `witness_F_…` on the code as found, `fixed_F_…` on the
+    model with the repair's flag on -/
+
+/-- view of `p` after `h; crash` on the flagged model / on the (flagged) durable spec -/
+def implAfterCrash (fx : Fixes) (h : List Op) (p : Path) : View :=
+  viewOfFx fx (runStFx fx {} St.init (q h ++ [(Op.crash, ({} : Ora))])).fs p
+def specAfterCrash (fx : Fixes) (h : List Op) (p : Path) : View :=
+  sView (sRunStFx fx {} Spec.init (q h ++ [(Op.crash, ({} : Ora))])).l p
+
+def fx5 : Fixes := { renameKind := true }
+def fx7 : Fixes := { childRenamedIn := true }
+def fx9 : Fixes := { createOverDir := true }
+def fx11 : Fixes := { syncRenameBoth := true }
+
+theorem witness_F_C07_5 : implAfterCrash {} hist5 d ≠ specAfterCrash {} hist5 d := by decide
+theorem fixed_F_C07_5 : implAfterCrash fx5 hist5 d = specAfterCrash fx5 hist5 d := by decide
+
+theorem witness_F_C07_7 : implAfterCrash {} hist7 d ≠ specAfterCrash {} hist7 d := by decide
+theorem fixed_F_C07_7 : implAfterCrash fx7 hist7 d = specAfterCrash fx7 hist7 d := by decide
+
+/-- F-C07-9: mkdir /d, open /d with create, sync_dir /: /d comes back as a regular file -/
+def hist9 : List Op := [.mkdir d, .open 0 d WC, .syncDir []]
+theorem witness_F_C07_9 : implAfterCrash {} hist9 d ≠ specAfterCrash {} hist9 d := by decide
+theorem fixed_F_C07_9 : implAfterCrash fx9 hist9 d = specAfterCrash fx9 hist9 d := by decide
+
+theorem witness_F_C07_11 : implAfterCrash {} hist11 b ≠ specAfterCrash {} hist11 b := by decide
+/-- F-C07-11 repaired: the file survives under its new name (and not under the old one) -/
+theorem fixed_F_C07_11 :
+    implAfterCrash fx11 hist11 b = specAfterCrash fx11 hist11 b ∧
+    implAfterCrash fx11 hist11 b = .file 0 [] ∧ implAfterCrash fx11 hist11 (d ++ a) = .none := by decide
+/-- …also when only the source directory is synced: the rename is durable as a whole -/
+def hist11b : List Op :=
+  [.mkdir d, .open 0 (d ++ a) WC, .close 0, .syncDir [], .syncDir d, .rename (d ++ a) b, .syncDir d]
+theorem fixed_F_C07_11_sourceOnly :
+    implAfterCrash fx11 hist11b b = specAfterCrash fx11 hist11b b ∧ implAfterCrash fx11 hist11b b = .file 0 [] := by
+  decide
+/-- …and syncing only the destination no longer leaves a stale durable entry under the old name -/
+def hist11c : List Op :=
+  [.mkdir d, .open 0 a WC, .close 0, .syncDir [], .rename a (d ++ a), .syncDir d, .open 1 a WC, .syncAll 1]
+theorem witness_F_C07_11_stale : implAfterCrash {} hist11c a ≠ specAfterCrash {} hist11c a := by decide
+theorem fixed_F_C07_11_stale : implAfterCrash fx11 hist11c a = specAfterCrash fx11 hist11c a := by decide
+/-- F-C07-11 repaired, in general: a flushed rename leaves exactly the new name in `synced_entries` -/
+theorem fixed_F_C07_11_general (fx : Fixes) (path : Path) (syn : List Path) (src dst : Path)
+    (hfx : fx.syncRenameBoth = true) :
+    (syncedUpdFx fx path syn (.rename src dst)).contains dst = true ∧
+    (src ≠ dst → (syncedUpdFx fx path syn (.rename src dst)).contains src = false) :=
+  syncedUpdFx_rename fx path syn src dst hfx
 
 end TV.C07
